@@ -14,11 +14,73 @@ use vcommon::{CaseInfo, CheckResult, Ctx, Failure, Report, ensure, fail};
 use crate::util::{CS, engine, fill};
 
 /// The stored value: an arbitrary serde type implementing `WrappedKey`, as the stores are generic over it.
-#[derive(Clone, Debug, PartialEq, Eq, Serialize, Deserialize)]
+///
+/// `Serialize` is written by hand (same shape as the derived one: struct of 3 fields, `id` a 32-tuple, `data` a
+/// sequence of u8) so that a value can be made to FAIL part way through its serialization: with
+/// `fail == Some(k)` exactly `k` serialization steps succeed and the next one returns an error. The steps are:
+/// opening the struct (so k = 0 fails before anything was emitted), each of the 32 id bytes, the tag, each data
+/// byte, and closing the struct (k = 34 + data.len(): everything was emitted, the error comes last). This is the
+/// deterministic stand-in for "an insert that fails after some bytes reached the store" (the fs store encodes
+/// straight into the file, one write per CBOR token). `fail` is not part of the encoding.
+#[derive(Clone, Debug, PartialEq, Eq, Deserialize)]
 struct Blob {
     id: [u8; 32],
     tag: u64,
     data: Vec<u8>,
+    #[serde(skip)]
+    fail: Option<u32>,
+}
+
+struct Budget(std::cell::Cell<Option<u32>>);
+impl Budget {
+    fn tick<E: serde::ser::Error>(&self) -> Result<(), E> {
+        match self.0.get() {
+            None => Ok(()),
+            Some(0) => Err(E::custom("flaky value: serialization fails on purpose")),
+            Some(n) => {
+                self.0.set(Some(n - 1));
+                Ok(())
+            }
+        }
+    }
+}
+struct IdSer<'a>(&'a [u8; 32], &'a Budget);
+impl Serialize for IdSer<'_> {
+    fn serialize<S: serde::Serializer>(&self, s: S) -> Result<S::Ok, S::Error> {
+        use serde::ser::SerializeTuple as _;
+        let mut t = s.serialize_tuple(32)?;
+        for b in self.0 {
+            self.1.tick()?;
+            t.serialize_element(b)?;
+        }
+        t.end()
+    }
+}
+struct DataSer<'a>(&'a [u8], &'a Budget);
+impl Serialize for DataSer<'_> {
+    fn serialize<S: serde::Serializer>(&self, s: S) -> Result<S::Ok, S::Error> {
+        use serde::ser::SerializeSeq as _;
+        let mut t = s.serialize_seq(Some(self.0.len()))?;
+        for b in self.0 {
+            self.1.tick()?;
+            t.serialize_element(b)?;
+        }
+        t.end()
+    }
+}
+impl Serialize for Blob {
+    fn serialize<S: serde::Serializer>(&self, s: S) -> Result<S::Ok, S::Error> {
+        use serde::ser::SerializeStruct as _;
+        let b = Budget(std::cell::Cell::new(self.fail));
+        b.tick()?;
+        let mut t = s.serialize_struct("Blob", 3)?;
+        t.serialize_field("id", &IdSer(&self.id, &b))?;
+        b.tick()?;
+        t.serialize_field("tag", &self.tag)?;
+        t.serialize_field("data", &DataSer(&self.data, &b))?;
+        b.tick()?;
+        t.end()
+    }
 }
 
 impl Identified for Blob {
@@ -54,11 +116,17 @@ fn id_of(i: u8) -> [u8; 32] {
 struct Payload {
     tag: u64,
     len: u16,
+    /// `Some(k)`: the value's serialization fails after k steps (capped at "late" = 34 + len, see `Blob`)
+    #[serde(default)]
+    fail: Option<u16>,
 }
 
 impl Payload {
+    fn late(&self) -> u32 {
+        34 + self.len as u32
+    }
     fn blob(&self, id: [u8; 32]) -> Blob {
-        Blob { id, tag: self.tag, data: fill(self.tag, self.len as usize) }
+        Blob { id, tag: self.tag, data: fill(self.tag, self.len as usize), fail: self.fail.map(|k| (k as u32).min(self.late())) }
     }
 }
 
@@ -169,12 +237,42 @@ fn check_all<B: Backend>(b: &B, handles: &[B::S], m: &Model, at: &str) -> CheckR
     check_listing(b, m, at)
 }
 
+/// Model of a failed insert: the id is vacant, as if the call had not been made. Checked right away: `get` through
+/// every open handle gives `None`, the directory (if any) has no file for it, and `entry` on the handle that made the
+/// call is `Vacant` again (dropped without inserting, which again must leave nothing behind).
+fn after_failed_insert<B: Backend>(b: &B, handles: &mut [B::S], h: usize, key: [u8; 32], at: &str) -> CheckResult {
+    let name = BaseId::from_bytes(key).to_string();
+    if let Some(l) = b.listing() {
+        ensure!(!l.contains(&name), "failed insert left a file behind", "{at}");
+    }
+    for (hi, s) in handles.iter().enumerate() {
+        match s.get::<Blob>(BaseId::from_bytes(key)) {
+            Ok(None) => {}
+            Ok(Some(_)) => fail!("id is occupied after a failed insert", "{at}: get through handle {hi} returns a value"),
+            Err(e) => fail!("get fails after a failed insert", "{at}: handle {hi}: {e}"),
+        }
+    }
+    match handles[h].entry::<Blob>(BaseId::from_bytes(key)) {
+        Ok(Entry::Vacant(v)) => drop(v),
+        Ok(Entry::Occupied(_)) => fail!("entry is occupied after a failed insert", "{at}"),
+        Err(e) => fail!("entry failed", "{at}: after a failed insert: {e}"),
+    }
+    if let Some(l) = b.listing() {
+        ensure!(!l.contains(&name), "failed insert left a file behind", "{at}: after a vacant entry for the id was dropped");
+    }
+    Ok(())
+}
+
 /// `avoid_reread`: leave out the shape "occupied entry read, then read again or removed" (see the known
 /// finding of part `fs_occupied_reread`); such an entry is read once and dropped instead, and counted.
 fn run_ops<B: Backend>(b: &B, ops: &[Op], info: &mut CaseInfo, avoid_reread: bool) -> CheckResult {
     let mut handles: Vec<B::S> = vec![b.open().map_err(|e| Failure::new("open failed", e))?];
     let mut m: Model = HashMap::new();
     let (mut vac_drop, mut dup, mut reopen_nonempty, mut occ_multi_get, mut excluded) = (0, 0, 0, 0, 0);
+    // failed inserts: total, with >= 1 step emitted, failing only at the very end, followed later by a successful
+    // insert at the same id, and "a reopen happened after a failed insert"
+    let (mut ins_failed, mut ins_failed_partial, mut ins_failed_late, mut reinsert_after_failed, mut reopen_after_failed) = (0, 0, 0, 0, 0);
+    let mut failed_ids: BTreeSet<[u8; 32]> = BTreeSet::new();
     for (oi, op) in ops.iter().enumerate() {
         let at = format!("{} op#{oi} {op:?}", B::NAME);
         let nh = handles.len();
@@ -182,14 +280,25 @@ fn run_ops<B: Backend>(b: &B, ops: &[Op], info: &mut CaseInfo, avoid_reread: boo
             Op::Entry { h, id, insert, gets, remove } => {
                 let key = id_of(*id);
                 let mut pending: Option<(String, bool)> = None;
+                let mut failed_now = false;
                 let s = &mut handles[*h as usize % nh];
                 let e = s.entry::<Blob>(BaseId::from_bytes(key)).map_err(|e| Failure::new("entry failed", format!("{at}: {e}")))?;
                 match (e, m.contains_key(&key)) {
                     (Entry::Vacant(v), false) => match insert {
                         Some(p) => {
                             let blob = p.blob(key);
-                            v.insert(blob.clone()).map_err(|e| Failure::new("insert through a vacant entry failed", format!("{at}: {e}")))?;
-                            m.insert(key, blob);
+                            let r = v.insert(blob.clone());
+                            if blob.fail.is_some() {
+                                // the value cannot be serialized: the insert cannot have succeeded
+                                ensure!(r.is_err(), "insert of a value whose serialization fails reported success", "{at}");
+                                failed_now = true;
+                            } else {
+                                r.map_err(|e| Failure::new("insert through a vacant entry failed", format!("{at}: {e}")))?;
+                                if failed_ids.contains(&key) {
+                                    reinsert_after_failed += 1;
+                                }
+                                m.insert(key, blob);
+                            }
                         }
                         None => {
                             drop(v);
@@ -231,6 +340,14 @@ fn run_ops<B: Backend>(b: &B, ops: &[Op], info: &mut CaseInfo, avoid_reread: boo
                     (Entry::Vacant(_), true) => fail!("entry is vacant for an occupied id", "{at}"),
                     (Entry::Occupied(_), false) => fail!("entry is occupied for a vacant id", "{at}"),
                 }
+                if failed_now {
+                    let p = insert.as_ref().unwrap();
+                    after_failed_insert(b, &mut handles, *h as usize % nh, key, &at)?;
+                    failed_ids.insert(key);
+                    ins_failed += 1;
+                    ins_failed_partial += (p.fail.unwrap_or(0) >= 1) as u32;
+                    ins_failed_late += (p.fail.unwrap_or(0) as u32 >= p.late()) as u32;
+                }
                 if let Some((e, after_get)) = pending {
                     let after = match handles[*h as usize % nh].get::<Blob>(BaseId::from_bytes(key)) {
                         Ok(Some(_)) => "the id is still occupied",
@@ -258,8 +375,18 @@ fn run_ops<B: Backend>(b: &B, ops: &[Op], info: &mut CaseInfo, avoid_reread: boo
                         Ok(()) => fail!("duplicate insert accepted", "{at}"),
                         Err(e) => ensure!(e.kind() == ErrorKind::AlreadyExists, "duplicate insert reports another error kind", "{at}: {e}"),
                     }
+                } else if blob.fail.is_some() {
+                    ensure!(r.is_err(), "insert of a value whose serialization fails reported success", "{at}");
+                    after_failed_insert(b, &mut handles, *h as usize % nh, key, &at)?;
+                    failed_ids.insert(key);
+                    ins_failed += 1;
+                    ins_failed_partial += (p.fail.unwrap_or(0) >= 1) as u32;
+                    ins_failed_late += (p.fail.unwrap_or(0) as u32 >= p.late()) as u32;
                 } else {
                     r.map_err(|e| Failure::new("try_insert failed", format!("{at}: {e}")))?;
+                    if failed_ids.contains(&key) {
+                        reinsert_after_failed += 1;
+                    }
                     m.insert(key, blob);
                 }
             }
@@ -279,6 +406,9 @@ fn run_ops<B: Backend>(b: &B, ops: &[Op], info: &mut CaseInfo, avoid_reread: boo
                 if !m.is_empty() {
                     reopen_nonempty += 1;
                 }
+                if ins_failed > 0 {
+                    reopen_after_failed += 1;
+                }
                 check_all(b, &handles, &m, &at)?;
             }
             Op::OpenAnother => {
@@ -288,6 +418,9 @@ fn run_ops<B: Backend>(b: &B, ops: &[Op], info: &mut CaseInfo, avoid_reread: boo
                 handles.push(b.open().map_err(|e| Failure::new("reopen failed", format!("{at}: {e}")))?);
                 if !m.is_empty() {
                     reopen_nonempty += 1;
+                }
+                if ins_failed > 0 {
+                    reopen_after_failed += 1;
                 }
                 check_all(b, &handles, &m, &at)?;
             }
@@ -334,6 +467,21 @@ fn run_ops<B: Backend>(b: &B, ops: &[Op], info: &mut CaseInfo, avoid_reread: boo
     if excluded >= 1 {
         info.label(format!("{}_excluded_known_reread_shape", B::NAME));
     }
+    if ins_failed >= 1 {
+        info.label(format!("{}_failed_insert", B::NAME));
+    }
+    if ins_failed_partial >= 1 {
+        info.label(format!("{}_failed_insert_after_partial_output", B::NAME));
+    }
+    if ins_failed_late >= 1 {
+        info.label(format!("{}_failed_insert_at_the_very_end", B::NAME));
+    }
+    if reinsert_after_failed >= 1 {
+        info.label(format!("{}_successful_insert_after_failed_one_same_id", B::NAME));
+    }
+    if reopen_after_failed >= 1 {
+        info.label(format!("{}_reopen_after_failed_insert", B::NAME));
+    }
     if occ_multi_get >= 1 {
         info.label(format!("{}_occupied_read_twice", B::NAME));
     }
@@ -355,7 +503,16 @@ fn check_fs_reread(ops: &Vec<Op>, info: &mut CaseInfo) -> CheckResult {
 /// `big`: largest payload. The fs store reads and writes its CBOR files one byte per syscall, so fs parts use
 /// payloads in the size range of real wrapped keys (<= 400 data bytes).
 fn payload(big: u16) -> impl Strategy<Value = Payload> {
-    (any::<u64>(), prop_oneof![3 => 0u16..64, 1 => Just(0u16), 1 => 0u16..big]).prop_map(|(tag, len)| Payload { tag, len })
+    // about one value in four fails to serialize: before anything was emitted (0), within the first tokens, somewhere
+    // in id/tag/data, or only at the very end (u16::MAX is capped to "late" by `Payload::blob`)
+    let fail = prop_oneof![
+        12 => Just(None),
+        1 => Just(Some(0u16)),
+        1 => (1u16..4).prop_map(Some),
+        1 => (0u16..120).prop_map(Some),
+        1 => Just(Some(u16::MAX)),
+    ];
+    (any::<u64>(), prop_oneof![3 => 0u16..64, 1 => Just(0u16), 1 => 0u16..big], fail).prop_map(|(tag, len, fail)| Payload { tag, len, fail })
 }
 
 fn op(max_gets: u8, big: u16) -> impl Strategy<Value = Op> {
@@ -495,13 +652,16 @@ fn xcase() -> impl Strategy<Value = XCase> {
 pub fn run(ctx: &Ctx) -> ! {
     let mut rep = Report::new(ctx, "exploration");
     rep.assume("the stored value is a harness-defined serde type implementing WrappedKey (id, tag, 0..1500 data bytes in memory, 0..400 on the file system); the stores are generic over the wrapped key type");
+    rep.assume("failing inserts are produced by a stored value whose Serialize impl returns an error after k steps (the fs store encodes straight into the file, one write per CBOR token, so k > 0 means bytes have reached the file); failures of write(2)/fdatasync(2) themselves are not injected");
     rep.assume("single process, single thread: an entry borrows its store mutably, so entry/insert/get/remove/drop are atomic per handle; two handles on one directory are used alternately, never with an entry held open on the other handle (that would block on flock in one thread)");
     rep.assume("fs store directories are per-case temp dirs on /dev/shm when it exists (else the default temp dir); the `__canary` file the store creates when debug assertions are on is not counted as a leftover");
     rep.explore(
         "memstore_model",
         "op sequences (len 1..60) over 6 ids (all-zero, all-0xff, near-zero, two ids differing in the last bit): entry -> vacant \
-         {insert | drop} / occupied {0..3 reads, then remove | drop}, get, try_insert (incl. duplicates), remove; vs a HashMap model, \
-         with a read-back of all 6 ids after every op. non-trivial = >=1 vacant entry dropped and >=1 duplicate insert",
+         {insert | drop} / occupied {0..3 reads, then remove | drop}, get, try_insert (incl. duplicates), remove; about 1 in 4 \
+         inserted values FAILS to serialize after k steps (k = 0, 1..3, 0..119, or only at the very end): such an insert must \
+         return an error and leave the id vacant (get None through every handle, entry Vacant again, a later insert works); \
+         vs a HashMap model, with a read-back of all 6 ids after every op. non-trivial = >=1 vacant entry dropped and >=1 duplicate insert",
         || prop::collection::vec(op(3, 1500), 1..60),
         ctx.pick(20_000, 500_000),
         check_mem,
@@ -510,7 +670,7 @@ pub fn run(ctx: &Ctx) -> ! {
         "fs_store_model",
         "same op sequences (len 1..40) on fs_keystore::Store in a fresh temp dir, plus reopen / second and third handle on the same \
          directory / try_clone / close; after EVERY op the directory listing must be exactly the base58 names of the occupied ids \
-         (plus the debug canary); an occupied entry that would be read and then read again or removed is read once and dropped \
+         (plus the debug canary) -- in particular no file for an id whose insert failed part way, also after reopening; an occupied entry that would be read and then read again or removed is read once and dropped \
          instead (that shape is part fs_occupied_reread; label fs_excluded_known_reread_shape counts the cases); after every reopen and at the end every handle must return the model's value for every id; \
          finally all handles are closed and the directory is opened afresh. non-trivial = >=1 vacant entry dropped, >=1 duplicate \
          insert and >=1 reopen of a non-empty store",
